@@ -71,9 +71,8 @@ LAYOUT = ["RegionLayout::*", "DatabaseLayout::*", "round_up_to_multiple_of", "le
 reg = {
     "units": {
         "alloc": {"overlay": "units/alloc.ovl", "canaries": ["canary_alloc"],
-                  # executable functions defined in the overlay rather than extracted from /repo: rule helpers (T4) and, for
-                  # now, the ASSUMED contract of alloc_lowest
-                  "helpers": ["xxh3_checksum", "div_ceil_u32", "pow2_u32", "vec_reverse", "min_u8", "max_u32", "min_u32", "alloc_lowest"]},
+                  # executable functions defined in the overlay rather than extracted from /repo: rule helpers (T4)
+                  "helpers": ["xxh3_checksum", "div_ceil_u32", "pow2_u32", "vec_reverse", "min_u8", "max_u32", "min_u32"]},
         "types_sep": {"overlay": "units/types_sep.ovl", "canaries": ["canary_types_sep"], "helpers": ["common_prefix_len"]},
         # the page-level checksum walk over an abstract page store
         "merkle": {"overlay": "units/merkle.ovl", "canaries": ["canary_merkle"],
@@ -128,10 +127,9 @@ P["C14"] = {
     "level": "proof",
     "verus": [{"unit": "alloc", "functions": ALLOC_CORE + LAYOUT}],
     "kani": [],
-    "explanation": "Every clause of the statement is a postcondition over the set of free pages (free_set = {p | st().cov(0,p)}) of the REAL bodies of bitmap.rs, buddy_allocator.rs, region.rs and allocate_helper_retry, extracted from /repo on every run and verified by Verus for all sizes, orders and states: blocks handed out lie inside the region and were free (alloc/alloc_inner), refusal only when nothing of that order or larger is free (with lemma_bridge: no aligned free block exists), free makes exactly the block's pages free and merges with free buddies (I2), record_alloc marks exactly the block or refuses leaving the state unchanged, I1 (no page free at two orders) and I2 (buddies always merged) are established by new() and preserved; the region tracker never reports full a region holding a suitable free block (TRK) - established by Allocators::new, preserved by allocate_helper_retry.",
-    "not_decided": "the statements of TransactionalMemory::free_helper outside the extracted fragment (mutex, debug bookkeeping, cache invalidation); serialisation round trip (to_vec/from_bytes are external_body); the bodies of alloc_lowest and of the resize family (see assumptions)",
-    "assumptions": ["BuddyAllocator::alloc_lowest is ASSUMED to satisfy alloc's contract (external_body) - not yet verified",
-                    "BuddyAllocator::resize, BuddyAllocator::highest_free_order, BtreeBitmap::resize and RegionTracker::resize carry ASSUMED contracts (external_body: iterator adapters / iter_mut loops Verus cannot read); Allocators::resize_to is VERIFIED against them: it preserves wf and TRK, gives every region the size the new layout says, builds new regions for the capacity of a full region, and leaves unchanged regions untouched"],
+    "explanation": "Every clause of the statement is a postcondition over the set of free pages (free_set = {p | st().cov(0,p)}) of the REAL bodies of bitmap.rs, buddy_allocator.rs, region.rs and allocate_helper_retry, extracted from /repo on every run and verified by Verus for all sizes, orders and states: blocks handed out lie inside the region and were free (alloc/alloc_inner, and alloc_lowest with its allocate-compare-free-split loops), refusal only when nothing of that order or larger is free (with lemma_bridge: no aligned free block exists), free makes exactly the block's pages free and merges with free buddies (I2), record_alloc marks exactly the block or refuses leaving the state unchanged, I1 (no page free at two orders) and I2 (buddies always merged) are established by new() and preserved; the region tracker never reports full a region holding a suitable free block (TRK) - established by Allocators::new, preserved by allocate_helper_retry.",
+    "not_decided": "the statements of TransactionalMemory::free_helper outside the extracted fragment (mutex, debug bookkeeping, cache invalidation); serialisation round trip (to_vec/from_bytes are external_body); the bodies of the resize family and of highest_free_order (see assumptions); minimality of alloc_lowest's result (its contract is alloc's: the returned block was free, exactly it was removed)",
+    "assumptions": ["BuddyAllocator::resize, BuddyAllocator::highest_free_order, BtreeBitmap::resize and RegionTracker::resize carry ASSUMED contracts (external_body: iterator adapters / iter_mut loops Verus cannot read); Allocators::resize_to is VERIFIED against them: it preserves wf and TRK, gives every region the size the new layout says, builds new regions for the capacity of a full region, and leaves unchanged regions untouched"],
 }
 P["C20"] = {
     "level": "proof",
